@@ -42,6 +42,8 @@ def gen_inputs(rng, N, cfg, small):
         DELAY=dict(ROTATION_CHANGE_IN_MONTHS=2, GREENHOUSE_MONTHS=cfg["ghDelay"], INDUSTRIAL_FOODS_MONTHS=cfg["indDelay"],
                    SEAWEED_MONTHS=cfg["swDelay"], FEED_SHUTOFF_MONTHS=min(cfg["feedMonths"], N), BIOFUEL_SHUTOFF_MONTHS=cfg["bioMonths"]),
         INITIAL_GLOBAL_CROP_AREA=rng.uniform(1e5, 1e9), INITIAL_CROP_AREA_FRACTION=rng.uniform(0.001, 1.0),
+        # (a country run also carries the hectares reported in the country table, which are not the share x world cropland)
+        INITIAL_CROP_AREA_HA=rng.uniform(1e3, 1e8),
         ADD_GREENHOUSES=bool(cfg["gh"]), GREENHOUSE_AREA_MULTIPLIER=rng.uniform(0.02, 0.3), GREENHOUSE_GAIN_PCT=rng.uniform(10, 60),
         ADD_FISH=True, FISH_DRY_CALORIC_ANNUAL=scale * rng.uniform(1, 100), FISH_PROTEIN_TONS_ANNUAL=rng.uniform(1, 1e4),
         FISH_FAT_TONS_ANNUAL=rng.uniform(1, 1e4),
